@@ -296,3 +296,78 @@ def k1_set_prop(res, tier):
     """op_set_prop_by_name: cached vs first execution identical"""
     res.bounds = {'receiver': 'any value', 'cache': 'arbitrary entry at the site'}
     _differential(res, 'op_set_prop_by_name', 'property', False, dict(slot_offset=2))
+
+
+# ---------------------------------------------------------------------------------------------- instances older than their class
+F53_REPLAY = dict(kind='lay', source='import self.a;\nimport self.b;\nprint(a.x);\nprint(a.y);\nprint(b.getX());\ntry { print(b.getY()); } catch e: Error { print("error"); }\nprint("end");\n',
+                  files={'a.lay': 'export let x = 1;\nimport self.b;\nexport let y = 2;\n', 'b.lay': 'import self.a;\nexport fn getX() { a.x }\nexport fn getY() { a.y }\n'},
+                  bad_re='panicked', bad_exit=[101, 134, -6], expect_stdout_re=r'end')
+
+inst_len = z3.Function('instance_len', BV64, BV64)
+
+
+def _in_bounds(res, opname):
+    """the by-name property ops on an instance whose length is NOT tied to its class's field table: every slot they address is inside
+    the instance"""
+    P = get_program('vm')
+    Wd = World(P)
+    e, W = Wd.e, Wd.W
+    f = P.lookup('vm::Vm::' + opname)
+
+    def m_inst_index(e_, a, c):
+        i = object_of(e_, a[0])
+        n = inst_len(i.id)
+        e_.add_constraint(z3.ULT(n, 1 << 16))
+        if not e_.fork_bool(z3.ULT(a[1], n)):
+            raise PathEnd('oob', ('instance slot beyond the instance', opname))
+        return Ref(e_.seq_cell(Wd.inst_row(e_, i), a[1]))
+    e.model(r'^<(laythe_core::)?(object::)?(\w+::)*Instance as (std::ops::|core::ops::)?Index(Mut)?>::index(_mut)?$', m_inst_index)
+    def m_inst_deref(e_, a, c):
+        i = object_of(e_, a[0])
+        n = inst_len(i.id)
+        e_.add_constraint(z3.ULT(n, 1 << 16))
+        return SliceRef(Wd.inst_row(e_, i), bv(0, 64), n)
+    e.model(r'^<(laythe_core::)?(object::)?(\w+::)*Instance as (std::ops::|core::ops::)?Deref(Mut)?>::deref(_mut)?$', m_inst_deref)
+    e.model(r'^(laythe_core::)?(object::)?(instance::)?Instance::len$', lambda e_, a, c: inst_len(object_of(e_, a[0]).id))
+    e.model(r'^(laythe_core::)?(collections::)?(array::)?Array::len$', lambda e_, a, c: inst_len(object_of(e_, a[0]).id) if hasattr(object_of(e_, a[0]), 'id') else NotImplemented)
+
+    def path(e):
+        st = W.fresh_state(e)
+        const_idx = z3.Concat(z3.Select(st.code.arr, st.ip + 1), z3.Select(st.code.arr, st.ip))
+        name = const_str(const_idx)
+        slot = z3.ZeroExt(32, z3.Concat(*[z3.Select(st.code.arr, st.ip + 2 + k) for k in (3, 2, 1, 0)]))
+        info = Wd.cache_state(e, 'property', slot, name, False)
+        e.path_state['icache_cell'] = Cell(info['ic'])
+        e.assume(Wd.inv(e, 'property', info, name, False))
+        try:
+            e.call(f, [Ref(st.vm_cell)])
+        except PathEnd as pe:
+            if pe.kind not in END_KINDS:
+                raise
+        e.check(True, f'{opname}: ran to its end')
+        return {'op': opname}
+    results = e.explore(path)
+    for r in results:
+        if r.kind == 'oob' or (r.kind == 'panic' and 'index out of bounds' in str(r.info)):
+            res.fail(f'C13.K1:{opname}: a field slot of the class is used on an instance that is shorter',
+                     f'{opname} indexes the instance with the slot its CLASS has for the name; an instance created before the class gained the field (the import object of a '
+                     'module that exports more later: circular imports) is shorter, the host panics (index out of bounds)', {'path': str(r.info)}, replay=F53_REPLAY)
+        elif r.kind in ('panic', 'unreachable', 'ub', 'diverge', 'depth'):
+            s = str(r.info)
+            if 'to_obj' in s or 'Expected object' in s or 'panic_fmt' in s:
+                continue
+            res.fail(f'C13.K1:{opname}:{r.kind}', f'{opname}: path ends in {r.kind}: {s[:200]}', {'path': s})
+    summarize_paths(res, e, results, lambda r: r.info if isinstance(r.info, dict) else None, key_prefix=f'C13.K1:{opname}:bounds:', unwind_ok=False,
+                    ok_kinds=('ok', 'oob', 'panic'))
+
+
+@obligation('C13.K1.property_slots_in_bounds', 'C13', programs=('vm',), also=('C17', 'C16'))
+def k1_slots_in_bounds(res, tier):
+    """op_get_prop_by_name / op_set_prop_by_name on instances of ANY length (module classes gain a field with every export, so an import
+    object handed out during a circular import is shorter than its class's field table): a slot is only used when it lies inside
+    the instance, otherwise the property is undeclared for that instance"""
+    res.bounds = {'instance length': 'any, independent of the class', 'cache': 'arbitrary', 'class tables': 'uninterpreted'}
+    from .c01 import END_KINDS as _EK
+    globals()['END_KINDS'] = _EK
+    for op in ('op_get_prop_by_name', 'op_set_prop_by_name'):
+        _in_bounds(res, op)
